@@ -92,6 +92,8 @@ def modularise(spec, rng):
     if any(v >= 2 for v in indeg.values()):
         feats.add("diamond")
 
+    path_users = set()     # nonterminals referred to through a longer import path somewhere
+
     def ref(f, x):
         """How file f refers to nonterminal x."""
         g_ = home[x]
@@ -101,6 +103,7 @@ def modularise(spec, rng):
         for h in imports[f]:
             if h != g_ and g_ in imports.get(h, []) and rng.random() < 0.4:
                 feats.add("path-reference")
+                path_users.add(x)
                 return "%s.%s.%s" % (h, g_, x)
         return "%s.%s" % (g_, x)
 
@@ -143,6 +146,8 @@ def modularise(spec, rng):
             lines.append("%s.%s: %s;" % (home[n], n, " | ".join(" ".join("'%s'" % spec.terms[t][1] for t in rhs) or "EMPTY"
                                                                for rhs in rhss)))
         files[f + ".pg"] = "\n".join(lines) + "\n"
+    if override and override[0] in path_users:
+        second_path = True     # some reference reaches the overridden rule by another qualified name
     # flattened
     flat_rules = []
     for l, r in spec.rules:
